@@ -19,6 +19,8 @@ pub enum Ev {
   // ---- explorer side
   RootReq(Tid),
   RootRet(Tid, u8),
+  /// a require of a session that is kept after a caught panic aborted: message, file, line
+  RootAbort(Tid, String, String, u32),
   BottomUpStart,
   BottomUpSchedule(Rid),
   BottomUpUpdate,
